@@ -563,6 +563,8 @@ def reproduce(finding):
 
 
 def replay(doc):
+    if 'case' not in doc:
+        return F().replay_obligation(doc, ID)
     c = doc['case']
     if c.get('level') == 'session':
         ok, what, sig, obs = run_script(c)
